@@ -117,6 +117,10 @@ def replay_fs(case):
                 continue
             elif o == "remove":
                 f.remove(mk_term(op["t"]))
+            elif o == "setslice":
+                f[op["i"] : op["j"]] = [mk_term(n) for n in op["t"].split(",")]
+            elif o == "delslice":
+                del f[op["i"] : op["j"]]
             elif o == "extend":
                 f.extend([mk_term(n) for n in op["t"].split(",")])
             last = "ok"
